@@ -37,6 +37,17 @@ CLAIMED = {
              "unit after word-sized edits, count 99 empties, paired scripts with/without an aborted episode).",
         note=TTY_NOTE,
         technique="Coq proof: invariant by induction over notifications / commands (compositional 'preserves' calculus over the editor monad); induction over the undo stack; extracted-model differential check through a pty + metamorphic oracle"),
+    "C06": dict(
+        text="Theorems over the model of kill_ring.rs and the line buffer's yank / yank_pop: a kill that starts a run fills a fresh "
+             "slot with exactly the removed text and the next yank returns it; consecutive kills accumulate (forward appended, "
+             "backward prepended) so that for ANY mix of forward and backward kills around the cursor the slot holds the removed "
+             "pieces in their original left-to-right order and re-inserting it restores the text; notifications of single-character "
+             "deletes never reach the ring and those commands end the run; yank inserts the text at the cursor; yank-pop replaces "
+             "exactly the bytes the yank inserted, by the previous slot, cyclically, and only directly after a yank or yank-pop. "
+             "PARTIAL: the chronology of slots across many kills is decided by the reference-ring oracle and the correspondence; "
+             "known findings K1, K2 (recorded, classes excluded).",
+        note=TTY_NOTE + "KNOWN-FINDING lines K1, K2 are printed while their witnesses reproduce.",
+        technique="Coq proof: induction over the kill run (inductive relation for pieces around the cursor), case analysis of the ring arithmetic; extracted-model differential check through a pty + reference-ring oracle"),
     "C13": dict(
         text="Theorems for every validator, editor state and text: executing Enter / C-j / C-m says Submit only if the verdict on "
              "the current text is Valid, and then text and cursor are exactly those validated; a Valid verdict does submit; "
